@@ -8,10 +8,7 @@ open Interop Drv
 def parseSel (s : String) : Option (List Nat) :=
   if s.isEmpty then some [] else (s.splitOn ",").mapM (fun t => t.toNat?)
 
-def stepC11 (_ : Unit) (line : String) : Unit × String :=
-  let (op, arg) := cut line
-  ((), match op with
-  | "cb" =>
+def cbLine (arg : String) : String :=
     match arg.splitOn "|" with
     | [p, selS, argS] =>
       match p.toList with
@@ -31,11 +28,30 @@ def stepC11 (_ : Unit) (line : String) : Unit × String :=
           let (res, _) := callGeneric m "?" (selBody m sel "?") dirty args ()
           ";".intercalate res
     | _ => "bad-op"
+
+/-- `cbk <kinds> <n|r><pattern>|<sel>|<args>`: typed parameters; the model moves the argument tokens
+    exactly (argument i stored in bind i EXACTLY, whatever its kind) -/
+def cbkLine (arg : String) : String :=
+  let (kinds, rest) := cut arg
+  let ks := kinds.splitOn ","
+  let known := ["bool", "int", "int8", "int16", "int32", "int64", "uint", "uint8", "uint16", "uint32", "uint64",
+    "uintptr", "float32", "float64", "complex64", "complex128", "string", "rune", "byte"]
+  match rest.splitOn "|" with
+  | [p, _, _] =>
+    if ks.length + 1 != p.length || !(ks.all known.contains) || (p.toList.drop 1).any (· == 'v') then "bad-op"
+    else cbLine rest
+  | _ => "bad-op"
+
+def stepC11 (_ : Unit) (line : String) : Unit × String :=
+  let (op, arg) := cut line
+  ((), match op with
+  | "cb" => cbLine arg
+  | "cbk" => cbkLine arg
   | "prog" =>
     match arg.splitOn " " with
     | [k, _] =>
       if ["sortslice", "sortsort", "stringsfunc", "stringer", "reader", "once", "search", "closure",
-          "goroutines", "variadic", "panics", "methodvalue", "sprint"].contains k then "ran" else "bad-op"
+          "goroutines", "variadic", "panics", "methodvalue", "sprint", "foreignpanic", "reassign"].contains k then "ran" else "bad-op"
     | _ => "bad-op"
   | _ => "bad-op")
 
